@@ -132,6 +132,8 @@ class Spec:
     prefix: str = ""
     signatures: dict[str, tuple[list[tuple[str, str]], str]] = dfield(default_factory=dict)
     self_type: dict[str, str] = dfield(default_factory=dict)   # "Class" -> type of `self` in its methods
+    identity_attrs: set[str] = dfield(default_factory=set)     # `.data` on an int / list view is the identity
+    identity_ctors: set[str] = dfield(default_factory=set)     # `IntAttr(e)` on an int view is the identity
     header: str = ""
 
 
@@ -193,10 +195,11 @@ class _Fail(TranslatorError):
 
 # -------------------------------------------------------------------------------------- translator
 class FunTranslator:
-    def __init__(self, mod: "ModuleTranslator", fn: ast.FunctionDef, qual: str):
+    def __init__(self, mod: "ModuleTranslator", fn: ast.FunctionDef, qual: str, cls: str | None = None):
         self.m = mod
         self.fn = fn
         self.qual = qual
+        self.cls = cls
         self.counter = 0
         self.calls: set[str] = set()
         self.fuel_var = "fuel"
@@ -253,7 +256,7 @@ class FunTranslator:
         if is_opt(want) and e.ty == "none":
             return E(e.binds, "None", want, False)
         if is_list(want) and e.ty == "list:?":
-            return E(e.binds, e.term, want, e.opt)
+            return E(e.binds, e.term if e.opt else f"({e.term} : {coq_type(want)})", want, e.opt)
         self.fail(node, f"type mismatch: have {e.ty}, need {want}")
 
     # -- annotations
@@ -292,6 +295,8 @@ class FunTranslator:
                 self.fail(node, f"unknown member {node.attr} of {en.py_name}")
             return E([], en.members[node.attr], "enum:" + en.coq_type)
         base = self.expr(node.value, env)
+        if node.attr in self.m.spec.identity_attrs and (base.ty == "int" or is_list(base.ty)):
+            return base
         if base.ty.startswith("adt:"):
             adt = self.m.adt_by_coq[inner(base.ty)]
             cands = [f for c in adt.classes.values() for f in c.fields if f.name == node.attr]
@@ -493,8 +498,16 @@ class FunTranslator:
         if node.keywords:
             self.fail(node, "keyword arguments outside the subset")
         f = node.func
+        if isinstance(f, ast.Call) and isinstance(f.func, ast.Name) and f.func.id == "type" and len(f.args) == 1 \
+                and isinstance(f.args[0], ast.Name) and f.args[0].id == "self" and self.cls in self.m.class_ctor:
+            f = ast.Name(id=self.cls, ctx=ast.Load())       # type(self)(...) = the class's own constructor
         if isinstance(f, ast.Name):
             name = f.id
+            if name in self.m.spec.identity_ctors and len(node.args) == 1:
+                v = self.expr(node.args[0], env)
+                if v.ty != "int":
+                    self.fail(node, f"{name}() of a non-int")
+                return v
             if name == "isinstance" and len(node.args) == 2 and isinstance(node.args[1], ast.Name):
                 v = self.expr(node.args[0], env)
                 cls = node.args[1].id
@@ -850,7 +863,9 @@ class ModuleTranslator:
                 self.class_type[cn] = "adt:" + a.coq_type
         self.sigs: dict[str, tuple[list[tuple[str, str]], str]] = {}
 
-    def ann_type(self, node, ft=None) -> str:
+    def ann_type(self, node, ft=None, cls=None) -> str:
+        if ft is not None and cls is None:
+            cls = ft.cls
         def bad():
             raise TranslatorError(f"{self.spec.source}:{getattr(node, 'lineno', '?')}: annotation {ast.unparse(node)} outside the subset")
         if node is None:
@@ -860,6 +875,8 @@ class ModuleTranslator:
         if isinstance(node, ast.Constant) and isinstance(node.value, str):
             return self.ann_type(ast.parse(node.value, mode="eval").body)
         if isinstance(node, ast.Name):
+            if node.id == "Self" and cls is not None and cls in self.spec.self_type:
+                return self.spec.self_type[cls]
             if node.id == "int":
                 return "int"
             if node.id == "bool":
@@ -928,11 +945,11 @@ class ModuleTranslator:
                 if p.annotation is None:
                     raise TranslatorError(f"{self.spec.source}:{fn.lineno}: {qual}: parameter {p.arg} is not annotated")
                 params.append((p.arg, self.ann_type(p.annotation)))
-            self.sigs[name] = (params, self.ann_type(fn.returns))
+            self.sigs[name] = (params, self.ann_type(fn.returns, cls=cls))
         # bodies
         bodies, calls = {}, {}
         for (name, qual, fn, cls) in funs:
-            ft = FunTranslator(self, fn, qual)
+            ft = FunTranslator(self, fn, qual, cls)
             params, ret = self.sigs[name]
             bodies[name] = ft.translate_body(params, ret)
             calls[name] = ft.calls
